@@ -80,10 +80,35 @@ def theorems_of(module):
     out = []
     for fp in files:
         src = strip_comments(open(fp, encoding="utf-8").read())
-        ns = NAMESPACE_RE.findall(src)
-        prefix = (ns[0] + ".") if ns else ""
-        out += [prefix + t for t in THEOREM_RE.findall(src) if PROP_THM.search(prefix + t)]
+        out += [t for t in qualified_theorems(src) if PROP_THM.search(t)]
     return out, path
+
+
+SCOPE_RE = re.compile(r"^(namespace|section|end)\b\s*([A-Za-z0-9_.]*)")
+
+
+def qualified_theorems(src):
+    """Fully qualified theorem names of a Lean source: follows `namespace X … end X` (and sections) line by line."""
+    stack, out = [], []
+    for line in src.split("\n"):
+        m = SCOPE_RE.match(line)
+        if m:
+            kw, name = m.group(1), m.group(2)
+            if kw == "namespace":
+                stack.append(("ns", name))
+            elif kw == "section":
+                stack.append(("sec", name))
+            elif stack:
+                stack.pop()
+            continue
+        t = THEOREM_RE.match(line)
+        if t:
+            name = t.group(1)
+            if name.startswith("_root_."):
+                out.append(name[len("_root_."):])
+            else:
+                out.append(".".join([n for k, n in stack if k == "ns" and n] + [name]))
+    return out
 
 
 def proof_step(pid, module, thorough):
